@@ -465,3 +465,13 @@ Definition run_open_peak (l : list N) : list N :=
       [N.of_nat (length (b_open s)); N.of_nat (length (b_pq s)); N.of_nat (length (b_run s))]
   | _ => [9]
   end.
+
+(* ------------------------------------------------------------------ *)
+(* destination matrix (C02 C07 C08 C09 C14): [source kind; destination state; option] -> [outcome code] *)
+(* ------------------------------------------------------------------ *)
+From XcpModel Require Import DestMatrix.
+Definition run_dest_matrix (l : list N) : list N :=
+  match l with
+  | s :: d :: o :: _ => [outcome_code (dest_outcome (s_of s) (d_of d) (o_of o))]
+  | _ => [9]
+  end.
